@@ -301,7 +301,7 @@ pub fn run_c07(prop: &str, seed: u64, index: usize, _tier: Tier) -> RunReport {
             if writes.len() >= 2 {
                 // after the first write of the entry, inside a later one
                 let (wi, wlen) = writes[1 + rng.usize_below(writes.len() - 1)];
-                let byte = match rng.below(4) { 0 => None, 1 => Some(rng.usize_below(7).min(wlen - 1).max(1)), 2 => Some(1 + rng.usize_below(wlen - 1)), _ => Some(wlen - 1) };
+                let byte = if wlen < 2 { None } else { match rng.below(4) { 0 => None, 1 => Some(rng.usize_below(7).min(wlen - 1).max(1)), 2 => Some(1 + rng.usize_below(wlen - 1)), _ => Some(wlen - 1) } };
                 let image = crate::crash::os_image_at(&d, wi, byte);
                 let cont = vec![
                     Op::Append { q: 1, pos: None, lens: vec![rng.below(60) as u32], uid: 900_001 },
